@@ -7,6 +7,7 @@ CONSTANT Clock <- MC_ClockFixed
 CONSTANT DefaultRk = "rk1"
 CONSTANT ReplyKinds <- MC_Seed
 CONSTANT LaterReplies = FALSE
+CONSTANT Cancels = FALSE
 CONSTANT SyncFlavours <- MC_Async
 INIT Init
 NEXT Next
@@ -19,4 +20,5 @@ INVARIANT ObtainedIsCached
 PROPERTY NoRepeatRpc
 PROPERTY RootKeyIsOffline
 PROPERTY CacheMonotone
+PROPERTY FailedCallsLeaveCacheUnchanged
 CHECK_DEADLOCK FALSE
